@@ -97,6 +97,16 @@ def run(chk):
                             ('timestamp object of a 2.0 created', donor20.created), ('timestamp object of a 2.1 valid_from', ind.valid_from)):
                 if kind == 'timestamp object of a 2.0 created' and text.endswith('456Z'): continue       # (2.0 created is truncated to the millisecond: another instant)
                 yield (f'2.1:observables:network-traffic:start {text} as {kind}', stix2.v21.NetworkTraffic, dict(base, start=v, end=v))
+        # contributing values that do not arrive as direct keyword arguments: through the custom_properties keyword, and as declared defaults / fixed values
+        yield ('2.1:observables:file:name via custom_properties', stix2.v21.File, {'custom_properties': {'name': 'foo.dll'}})
+        yield ('2.1:observables:domain-name:value via custom_properties', stix2.v21.DomainName, {'custom_properties': {'value': 'example.com'}})
+        if 'x-vf-sco-dflt' not in registry.STIX2_OBJ_MAPS['2.1']['observables']:
+            @stix2.v21.CustomObservable('x-vf-sco-dflt', [('x_kind', stix2.properties.StringProperty(default=lambda: 'k')), ('x_fixed', stix2.properties.StringProperty(fixed='f')),
+                                                          ('x_v', stix2.properties.IntegerProperty())], id_contrib_props=['x_kind', 'x_fixed'])
+            class VFScoD(object): pass
+        CD = registry.STIX2_OBJ_MAPS['2.1']['observables']['x-vf-sco-dflt']
+        yield ('2.1:observables:x-vf-sco-dflt:defaults only', CD, {'x_v': 1}); yield ('2.1:observables:x-vf-sco-dflt:nothing given', CD, {})
+        yield ('2.1:observables:x-vf-sco-dflt:default overridden', CD, {'x_kind': 'other'})
         for kw in ({'number': 0}, {'number': 10**21}, {'number': 1, 'name': 'n'}):
             yield ('2.1:observables:autonomous-system:number=' + str(kw['number']), stix2.v21.AutonomousSystem, kw)
         yield ('2.1:observables:network-traffic:src_port=0', stix2.v21.NetworkTraffic, {'protocols': ['tcp'], 'src_ref': 'ipv4-addr--' + G.UUID, 'src_port': 0})
@@ -107,7 +117,7 @@ def run(chk):
         label, cls, kw = case
         try: o = cls(**(dict(kw) if ' as timestamp object' in label else copy.deepcopy(kw)))
         except Exception: return None
-        d = json.loads(o.serialize())
+        d = json.loads(o.serialize(include_optional_defaults=True))          # (a defaulted contributing property is part of the object although the default serialization omits it)
         contributing = list(cls._id_contributing_properties)
         want = spec_id(d, contributing)
         tname = label.split(':')[2]
@@ -146,6 +156,27 @@ def run(chk):
         d = json.loads(o.serialize()); contributing = list(cls._id_contributing_properties)
         key = canon({k: (d[k] if k != 'hashes' else {next((h for h in HASH_ORDER if h in d[k]), None) or next(iter(d[k])): 1} and d[k]) for k in contributing if k in d}) if any(k in d for k in contributing) else None
         if key is not None: by_type.setdefault(d['type'], {}).setdefault(d['id'], set()).add(spec_id(d, contributing))
+    # the id stays the identifier of the object's own content when the caller goes on using (and changing) the nested data it handed in
+    def poke(v, depth=0):
+        """change every nested mutable container in place (the caller re-using its template for the next object)"""
+        if isinstance(v, dict):
+            for x in list(v.values()): poke(x, depth + 1)
+            if depth: v['poked'] = 'p'
+        elif isinstance(v, list):
+            for x in v: poke(x, depth + 1)
+            if depth: v.append('p' if not v or isinstance(v[0], str) else 0 if isinstance(v[0], (int, float)) else copy.deepcopy(v[0]))
+    for label, cls, kw in cc:
+        if 'x-vf-sco' in label or ' as ' in label: continue          # (custom observables keep dictionary-valued custom content by reference: outside this clause, see DESIGN 9.3)
+        if not any(isinstance(v, (dict, list)) for v in kw.values()): continue
+        mine = copy.deepcopy(kw)
+        try: o = cls(**mine)
+        except Exception: continue
+        before = o.serialize()
+        poke(mine)
+        d = json.loads(o.serialize()); want = spec_id(d, list(cls._id_contributing_properties))
+        if want is not None and d['id'] != want:        # (that non-contributing dictionary values follow the caller's object is the library's long-standing behaviour, DESIGN 9.3; the id must stay that of the content)
+            chk.violation(f'history#id of the object\'s own content after the caller changed its input:{label.split(":")[2]}', f'{label}: after the caller modified the nested data it had passed in, the object reads {o.serialize()[:160]} (before: {before[:160]}); id {d["id"]}, recomputation {want}', {'kwargs': repr(kw)[:300]})
+            break
     # equal contributing values, whatever kind of value carried them: one id
     groups = {}
     for label, cls, kw in cc:
